@@ -1,6 +1,6 @@
 (* FixintFacts.v: C13.  LE<T>/BE<T> encode as exactly size_of::<T>() raw bytes in the chosen
    order (one try_push per byte, never a varint) and decode back. *)
-From Coq Require Import Lia ZifyBool ZifyNat ZifyN.
+From Coq Require Import Lia ZifyBool ZifyNat ZifyN ZArith List.
 From PV Require Import Base MachineInt DataModel Ser De Fixint BaseFacts ZigZagFacts.
 Open Scope N_scope.
 
@@ -96,3 +96,44 @@ Proof.
     rewrite Z2N.id by (apply Z.mod_pos_bound; destruct k; cbn; lia).
     rewrite wrap_mod. apply wrap_id. assumption.
 Qed.
+
+Lemma le_bytes_nth n : forall v i, (i < n)%nat ->
+  nth_error (le_bytes n v) i = Some ((v / 256 ^ N.of_nat i) mod 256).
+Proof.
+  induction n as [|n IH]; intros v i Hi; [lia|].
+  cbn [le_bytes]. destruct i as [|i].
+  - cbn [nth_error]. change (256 ^ N.of_nat 0) with 1. now rewrite N.div_1_r.
+  - cbn [nth_error]. rewrite IH by lia. f_equal. f_equal.
+    rewrite N.div_div by lia. f_equal.
+    replace (N.of_nat (S i)) with (N.succ (N.of_nat i)) by lia.
+    now rewrite N.pow_succ_r'.
+Qed.
+
+Lemma rev_nth_error {A} (l : list A) : forall i, (i < length l)%nat ->
+  nth_error (rev l) i = nth_error l (length l - 1 - i).
+Proof.
+  induction l as [|a l IH]; intros i Hi; cbn [length] in *; [lia|].
+  cbn [rev]. destruct (Nat.eq_dec i (length l)) as [->|Hne].
+  - rewrite nth_error_app2 by (rewrite rev_length; lia).
+    rewrite rev_length. replace (length l - length l)%nat with 0%nat by lia.
+    replace (S (length l) - 1 - length l)%nat with 0%nat by lia. reflexivity.
+  - rewrite nth_error_app1 by (rewrite rev_length; lia).
+    rewrite IH by lia.
+    replace (S (length l) - 1 - i)%nat with (S (length l - 1 - i)) by lia. reflexivity.
+Qed.
+
+(* the byte at offset i of an LE<T> field is bits 8i..8i+7 of T's two's-complement pattern; of a
+   BE<T> field, bits 8(size_of-1-i).. : the positional statement of "in the chosen byte order" *)
+Theorem fixint_byte_at be k z i : (i < nbytes k)%nat ->
+  nth_error (enc (fix_value be k z)) i =
+  Some ((bit_pattern k z / 256 ^ N.of_nat (if be then nbytes k - 1 - i else i)) mod 256).
+Proof.
+  intros Hi. rewrite fixint_enc. unfold fix_bytes. destruct be.
+  - unfold be_bytes. rewrite rev_nth_error by (rewrite le_bytes_length; exact Hi).
+    rewrite le_bytes_length. apply le_bytes_nth. lia.
+  - now apply le_bytes_nth.
+Qed.
+
+(* the two orders are mirror images of each other *)
+Theorem fixint_be_is_rev_le k z : enc (fix_value true k z) = rev (enc (fix_value false k z)).
+Proof. rewrite !fixint_enc. reflexivity. Qed.
